@@ -343,7 +343,16 @@ class TileWalker(object):
         :param all_subtiles: seed all subtiles and do not check for
                              intersections with bbox/geom
         """
-        bbox_, tiles, subtiles = self.grid.get_affected_level_tiles(cur_bbox, current_level)
+        # get_affected_level_tiles ignores 1/10 of a pixel at the borders of the bbox to skip tiles
+        # that are only touched. 1/10 pixel of this level can be many pixels in the last level and we
+        # would never visit tiles of the following levels that do intersect the coverage.
+        # Use the tolerance of the last level for all levels.
+        resolutions = self.tile_mgr.grid.resolutions
+        delta = (resolutions[current_level] - resolutions[self.task.levels[-1]]) / 10.0
+        affected_bbox = cur_bbox
+        if delta > 0:
+            affected_bbox = (cur_bbox[0] - delta, cur_bbox[1] - delta, cur_bbox[2] + delta, cur_bbox[3] + delta)
+        bbox_, tiles, subtiles = self.grid.get_affected_level_tiles(affected_bbox, current_level)
         total_subtiles = tiles[0] * tiles[1]
         if len(levels) < self.skip_geoms_for_last_levels:
             # do not filter in last levels
